@@ -1,0 +1,6 @@
+//go:build !verif
+
+package bigbuff
+
+// verifHook is a no-op unless built with the `verif` build tag (see verif_on.go).
+func verifHook(string) {}
